@@ -42,6 +42,10 @@ def cons_for(name, extra_pats, level):
             if any(o == ['pat', p] for o in opts):
                 continue
             out.append([[[p, opts]]])
+    if len(seen) >= 1 and len(extra_pats) >= 2 and seen[0] not in extra_pats[:2]:
+        # two alternative sets that differ only in which pattern the constrained one must equal
+        p = seen[0]
+        out.append([[[p, [['pat', extra_pats[0]]]]], [[p, [['pat', extra_pats[1]]]]]])
     if level >= 1 and len(seen) >= 1:
         p = seen[0]
         out.append([[[p, [['lit', 'a']]]], [[p, [['lit', 'b']]]]])       # two alternative sets
@@ -82,6 +86,18 @@ def schemas(tier):
                         # the packet rule defined twice with different signers; a key rule referring to a sub-rule
                         yield [p, dict(p, sign=['#m'], cons=[[[ppats[0], [['lit', 'b']]]]] if ppats else []), k, k2]
                         yield [p, {'id': '#k', 'name': [['ref', '#m']] + kn[:1], 'cons': [], 'sign': []}, k2]
+
+
+    # key rules (or alternative constraint sets of one key rule) that differ only in which packet pattern the key pattern must equal
+    P = {'id': '#p', 'name': [['pat', 'x'], ['pat', 'y']], 'cons': [], 'sign': ['#k']}
+    zx, zy = [['z', [['pat', 'x']]]], [['z', [['pat', 'y']]]]
+    yield [P, {'id': '#k', 'name': [['lit', 'a'], ['pat', 'z']], 'cons': [zx, zy], 'sign': []}]
+    yield [P, {'id': '#k', 'name': [['lit', 'a'], ['pat', 'z']], 'cons': [zy, zx], 'sign': []}]
+    yield [dict(P, sign=['#k', '#j']), {'id': '#k', 'name': [['lit', 'a'], ['pat', 'z']], 'cons': [zx], 'sign': []},
+           {'id': '#j', 'name': [['lit', 'a'], ['pat', 'z']], 'cons': [zy], 'sign': []}]
+    yield [dict(P, sign=['#j']), {'id': '#k', 'name': [['lit', 'a'], ['pat', 'z']], 'cons': [zx], 'sign': []},
+           {'id': '#j', 'name': [['lit', 'a'], ['pat', 'z']], 'cons': [zy], 'sign': []}]
+    yield [P, {'id': '#k', 'name': [['pat', 'z'], ['pat', 'w']], 'cons': [[['z', [['pat', 'x']]], ['w', [['pat', 'y']]]], [['z', [['pat', 'y']]], ['w', [['pat', 'x']]]]], 'sign': []}]
 
 
 def name_pool(tier):
